@@ -583,8 +583,10 @@ enum RepackReason {
 pub struct PrunePlan {
     /// The time the plan was created
     time: Zoned,
-    /// The ids of the blobs which are used
-    used_ids: BTreeMap<BlobId, u8>,
+    /// The blobs (type and id) which are used, with the number of still unprocessed duplicates.
+    /// The key contains the blob type: a tree blob and a data blob may share an id
+    /// (a file whose content is a serialized tree) and both must be kept.
+    used_ids: BTreeMap<(BlobType, BlobId), u8>,
     /// The ids of the existing packs
     existing_packs: BTreeMap<PackId, u32>,
     /// The packs which should be repacked
@@ -604,7 +606,7 @@ impl PrunePlan {
     /// * `existing_packs` - The ids of the existing packs
     /// * `index_files` - The index files
     fn new(
-        used_ids: BTreeMap<BlobId, u8>,
+        used_ids: BTreeMap<(BlobType, BlobId), u8>,
         existing_packs: BTreeMap<PackId, u32>,
         index_files: Vec<(IndexId, IndexFile)>,
     ) -> Self {
@@ -774,7 +776,7 @@ impl PrunePlan {
             .flat_map(|index| &index.packs)
             .flat_map(|pack| &pack.blobs)
         {
-            if let Some(count) = self.used_ids.get_mut(&blob.id) {
+            if let Some(count) = self.used_ids.get_mut(&(blob.tpe, blob.id)) {
                 // note that duplicates are only counted up to 255. If there are more
                 // duplicates, the number is set to 255. This may imply that later on
                 // not the "best" pack is chosen to have that blob marked as used.
@@ -789,7 +791,7 @@ impl PrunePlan {
     ///
     /// * If a blob is missing
     fn check(&self) -> RusticResult<()> {
-        for (id, count) in &self.used_ids {
+        for ((_, id), count) in &self.used_ids {
             if *count == 0 {
                 return Err(RusticError::new(
                     ErrorKind::Internal,
@@ -1095,7 +1097,7 @@ impl PrunePlan {
                 }
                 PackToDo::Keep | PackToDo::Recover => {
                     for blob in &pack.blobs {
-                        _ = self.used_ids.remove(&blob.id);
+                        _ = self.used_ids.remove(&(blob.tpe, blob.id));
                     }
                     check_size()?;
                 }
@@ -1322,7 +1324,7 @@ pub(crate) fn prune_repository<S: Open>(
                         indexer.add_remove(pack)?;
                     }
                     pack.blobs
-                        .retain(|blob| used_ids.remove(&blob.id).is_some()); // don't save duplicate blobs
+                        .retain(|blob| used_ids.remove(&(blob.tpe, blob.id)).is_some()); // don't save duplicate blobs
                     // sort blobs to later allow coalescing
                     pack.blobs.sort_unstable();
                     repack_packs.push(pack);
@@ -1496,7 +1498,7 @@ impl PackInfo {
     ///
     /// * `pack` - The `PrunePack` to create the `PackInfo` from
     /// * `used_ids` - The `BTreeMap` of used ids
-    fn from_pack(pack: &PrunePack, used_ids: &mut BTreeMap<BlobId, u8>) -> Self {
+    fn from_pack(pack: &PrunePack, used_ids: &mut BTreeMap<(BlobType, BlobId), u8>) -> Self {
         let mut pi = Self {
             blob_type: pack.blob_type,
             used_blobs: 0,
@@ -1513,7 +1515,7 @@ impl PackInfo {
         // If we found a needed blob, we stop and process the information that the pack is actually needed.
         let first_needed = pack.blobs.iter().position(|blob| {
             let length = blob.location.length;
-            match used_ids.get_mut(&blob.id) {
+            match used_ids.get_mut(&(blob.tpe, blob.id)) {
                 None | Some(0) => {
                     pi.unused_size += length;
                     pi.unused_blobs += 1;
@@ -1539,7 +1541,7 @@ impl PackInfo {
             // The pack is actually needed.
             // We reprocess the blobs up to the first needed one and mark all blobs which are generally needed as used.
             for blob in &pack.blobs[..first_needed] {
-                match used_ids.get_mut(&blob.id) {
+                match used_ids.get_mut(&(blob.tpe, blob.id)) {
                     None | Some(0) => {} // already correctly marked
                     Some(count) => {
                         // remark blob as used
@@ -1553,7 +1555,7 @@ impl PackInfo {
             }
             // Then we process the remaining blobs and mark all blobs which are generally needed as used in this blob
             for blob in &pack.blobs[first_needed + 1..] {
-                match used_ids.get_mut(&blob.id) {
+                match used_ids.get_mut(&(blob.tpe, blob.id)) {
                     None | Some(0) => {
                         pi.unused_size += blob.location.length;
                         pi.unused_blobs += 1;
@@ -1588,7 +1590,7 @@ fn find_used_blobs<S>(
     be: &impl DecryptReadBackend,
     index: &impl ReadGlobalIndex,
     ignore_snaps: &[SnapshotId],
-) -> RusticResult<BTreeMap<BlobId, u8>> {
+) -> RusticResult<BTreeMap<(BlobType, BlobId), u8>> {
     let ignore_snaps: BTreeSet<_> = ignore_snaps.iter().collect();
 
     let p = repo.progress_counter("reading snapshots...");
@@ -1607,7 +1609,7 @@ fn find_used_blobs<S>(
 
     let mut ids: BTreeMap<_, _> = snap_trees
         .iter()
-        .map(|id| (BlobId::from(**id), 0))
+        .map(|id| ((BlobType::Tree, BlobId::from(**id)), 0))
         .collect();
     let p = repo.progress_counter("finding used blobs...");
 
@@ -1621,11 +1623,11 @@ fn find_used_blobs<S>(
                         node.content
                             .iter()
                             .flatten()
-                            .map(|id| (BlobId::from(**id), 0)),
+                            .map(|id| ((BlobType::Data, BlobId::from(**id)), 0)),
                     );
                 }
                 NodeType::Dir => {
-                    _ = ids.insert(BlobId::from(*node.subtree.unwrap()), 0);
+                    _ = ids.insert((BlobType::Tree, BlobId::from(*node.subtree.unwrap())), 0);
                 }
                 _ => {} // nothing to do
             }
